@@ -47,7 +47,7 @@ package collect
 // ---- C16: a span of a trace first seen under stress relief is decided on the spot by the
 // deterministic rule, the decision is recorded, and a kept span goes upstream exactly once,
 // marked meta.stressed, with key / dataset / host as they came in.
-//@ contract collect.(*InMemCollector).getWorkerIDForTrace props C16 function
+//@ contract collect.(*InMemCollector).getWorkerIDForTrace props C16,C01 function
 //@   requires i != nil && len(i.workers) > 0
 //@   ensures[index-in-range] 0 <= result && result < len(i.workers)
 //@   modifies nothing
@@ -92,7 +92,7 @@ package collect
 // ---- C05 / C06 / C01: a span arriving after its trace was decided follows that decision.
 // Forwarded (exactly once) iff the trace was kept or dry run is on; never for a dropped trace.
 //@ spec attrsAreUserFields(m map[string]string) bool := forall k string :: in(m, k) ==> !isMetaKey(k) && k != config.DryRunFieldName && k != "meta.dryrun.sample_rate"
-//@ contract collect.(*InMemCollector).dealWithSentTrace props C05,C06,C01,C04
+//@ contract collect.(*InMemCollector).dealWithSentTrace props C05,C06,C01,C04,C02
 //@   requires i != nil && sp != nil && sp.Event != nil && owns(sp.Event) && tr != nil
 //@   domain[additional-attributes-are-user-fields] attrsAreUserFields(i.Config.GetAdditionalAttributes())
 //@   domain[rates-in-range] sp.SampleRate < 1<<31 && 1 <= tr.Rate() && tr.Rate() < 1<<32
@@ -149,7 +149,7 @@ package collect
 //@ ghost sendN(ref) int
 //@ ghost sendLastReason(ref) string
 //@ ghost sendLastTrace(ref) ref
-//@ contract collect.(*InMemCollector).send props C02,C05,C03
+//@ contract collect.(*InMemCollector).send props C02,C05,C03,C06
 //@   requires i != nil && trace.Trace != nil
 //@   ghostupdate sendN(i), sendLastReason(i), sendLastTrace(i) :: sendN(i) == old(sendN(i)) + 1 && sendLastReason(i) == trace.sendReason && toInt(sendLastTrace(i)) == toInt(trace.Trace)
 //@   ensures[marks-sent] trace.Trace.Sent
@@ -165,7 +165,7 @@ package collect
 //@   modifies p.memoizedFields, p.missingFields
 //@ contract types.(*Trace).ID inline
 //@ contract types.(*Trace).GetSpans inline
-//@ contract collect.(*CollectorWorker).makeDecision props C01,C02,C03,C07,C14
+//@ contract collect.(*CollectorWorker).makeDecision props C01,C02,C03,C07,C14,C12
 //@   requires cl != nil && cl.parent != nil && trace != nil
 //@   requires[spans-present] forall k int :: 0 <= k && k < len(trace.spans) ==> trace.spans[k] != nil && trace.spans[k].Event != nil
 //@   let sc = cl.sampleCache
@@ -228,7 +228,7 @@ package collect
 //@   modifies cl.localSpanProcessed, cl.localSpansWaiting, sp.SampleRate, sp.Data, sp.ArrivalTime, sp.Event.dataSize, all(cached), all(enqN), all(enqLast), all(enqHost), all(enqKey), all(enqDataset), all(enqProbe), all(enqStressed), all(enqRate), all(owns), field(types.Trace, spans), field(types.Trace, DataSize), field(types.Trace, totalImpact), field(types.Trace, Environment), field(types.Trace, SendBy), field(types.Trace, RootSpan)
 
 // A send tick takes expired traces from the buffer once, as of the tick's time, at most MaxExpiredTraces.
-//@ contract collect.(*CollectorWorker).sendExpiredTracesInCache props C03
+//@ contract collect.(*CollectorWorker).sendExpiredTracesInCache props C03,C02
 //@   arith math
 //@   requires cl != nil && cl.parent != nil
 //@   let c = cl.cache
@@ -265,12 +265,12 @@ package collect
 //@   ensures[already-sent-is-skipped] old(trace.Sent) ==> recN(sc) == old(recN(sc)) && sendN(par) == old(sendN(par)) && totalDataSizeSent == old(totalDataSizeSent)
 //@   modifies all(recN), all(recKept), all(recID), all(recRate), all(askedN), all(sendN), all(sendLastReason), all(sendLastTrace), all(sentN), cl.datasetSamplers, trace.Sent, trace.sampleRate, trace.KeepSample, field(types.Event, Data.MetaSpanEventCount), field(types.Event, Data.MetaSpanLinkCount), field(types.Event, Data.MetaSpanCount), field(types.Event, Data.MetaEventCount), field(types.Event, Data.memoizedFields), field(types.Event, Data.missingFields)
 
-//@ contract collect.(*CollectorWorker).sendTracesEarly props C07
+//@ contract collect.(*CollectorWorker).sendTracesEarly props C07,C02
 //@   arith math
 //@   requires cl != nil && cl.parent != nil
-//@   requires[a-positive-amount-is-requested@C07] sendEarlyBytes >= 0
+//@   requires[a-positive-amount-is-requested@C07,C02] sendEarlyBytes >= 0
 //@   let c = cl.cache
-//@   requires[buffered-traces-are-undecided@C07] forall k string :: toInt(cached(c, k)) != 0 ==> !buffered(c, k).Sent && buffered(c, k).TraceID == k
+//@   requires[buffered-traces-are-undecided@C07,C02] forall k string :: toInt(cached(c, k)) != 0 ==> !buffered(c, k).Sent && buffered(c, k).TraceID == k
 //@   ensures[decided-traces-leave-the-buffer] forall k string :: toInt(cached(c, k)) != 0 ==> !buffered(c, k).Sent
 //@   loop 1 invariant[visit] cl != nil && cl.parent != nil && toInt(c) == toInt(cl.cache) && (forall j int :: 0 <= j && j < len(allTraces) ==> allTraces[j] != nil && spansPresent(allTraces[j]) && toInt(cached(c, allTraces[j].TraceID)) == toInt(allTraces[j]))
 //@   loop 1 invariant[heaviest-first] forall a int, b int :: 0 <= a && a < b && b < len(allTraces) ==> allTraces[a].CacheImpact(traceTimeout) >= allTraces[b].CacheImpact(traceTimeout)
